@@ -494,6 +494,18 @@ def runC16mux (t : Tier) : Emit Unit := do
       pops := pops ++ [.packet p']
     emit "C16" { op := "mux", args := [("period", jnat 40), ("ops", jarr (pops.map opJson)), ("view", jstr "payload")],
                  model := "payload-unchanged=true", spec := some "payload-unchanged=true", tag := "muxer-keeps-packet-payload" }
+  -- private data shorter than its 16 bytes (the writer pads), extension 2 data, adaptation field private data: the
+  -- caller's slices, and the spare capacity behind them, come back untouched
+  for k in [0, 1, 5, 15, 16] do
+    let d ← liftGen (genData 0x100 true 20)
+    let oh := d.pes.header.optionalHeader.getD { markerBits := 2 }
+    let pd ← liftGen (randBytes k)
+    let e2 ← liftGen (randBytes 3)
+    let oh' := { oh with hasExtension := true, hasPrivateData := true, privateData := pd, hasExtension2 := true, extension2Data := e2, extension2Length := 3 }
+    let d' : MuxerData := { d with pes := { d.pes with header := { d.pes.header with optionalHeader := some oh', streamID := 0xe0 } } }
+    let ops : List MuxOp := [.add { elementaryPID := 0x100, streamType := 0x1b }, .setPCR 0x100, .data d', .data d']
+    emit "C16" { op := "mux", args := [("period", jnat 40), ("ops", jarr (ops.map opJson)), ("view", jstr "payload")],
+                 model := "payload-unchanged=true", spec := some "payload-unchanged=true", tag := "muxer-keeps-the-caller's-other-slices" }
   for _ in [0:(if t.quick then 1 else 6)] do
     let mut subs : List String := []
     for j in [0:4] do
